@@ -128,6 +128,10 @@ Ops(V) ==
                            OpR("nth0_out", No),
                            OpR("print", TA("same_as_list")) >> ELSE <<>>)
   \o (IF V.tl = "atom" THEN << OpR("print", TA("same_as_list")) >> ELSE <<>>)
+  (* number_chars/2 consumes a string of digits 1..9 (no sign, layout or leading zero): the number whose decimal notation it is, *)
+  (* observed through number_codes/2; a partial list is an instantiation error (ISO 8.16.7)                                      *)
+  \o (IF n >= 1 /\ (\A j \in 1..n : cs[j] >= 49 /\ cs[j] <= 57) /\ V.tl # "atom"
+      THEN << OpR("nchars", IF V.tl = "nil" THEN Yes(<<codes>>) ELSE Err(InstErr)) >> ELSE <<>>)
 
 (* ---- laws of this layer (TLC checks them on every enumerated value) ---- *)
 OrderLaws(V, P) == LET o == Order(V.cs, V.tl, P.cs, P.tl) IN
